@@ -548,6 +548,13 @@ func scnPipelineWorld(prop string, level int) scenarioFn {
 			p.disk.StallAt, p.disk.StallFor = 1+rc.Spec.Choose(10, "disk.stall.at"), stallFor
 		}
 		end := time.Duration(offset+45000) * time.Millisecond
+		for _, tl := range [][]TLItem{sshdTL, auditTL} {
+			for _, it := range tl {
+				if at := time.Duration(it.AtMs+5000) * time.Millisecond; at > end {
+					end = at // a history with a long quiet period in it
+				}
+			}
+		}
 		ok := p.Run(p.worldDone, end+5*time.Second+stallFor, 100*time.Millisecond, 150000)
 		if ok && !rc.Failed() {
 			// settle: let the reassembler and tickers run for 3 more simulated seconds
